@@ -13,7 +13,8 @@ meta = json.load(open(os.path.join(src, "meta.json")))
 log = open(os.path.join(src, "verif_run.log")).read().splitlines()
 pick = [l for l in log if l.startswith(("suite:", "demo ", "CAUGHT-BY"))]
 first = [l.strip() for l in log if l.startswith("      ")][:3]
-out = {"property": meta.get("property"), "origin": "independent sub-agent given only the property text and a scratch worktree",
+import subprocess
+out = {"property": meta.get("property"), "base_commit": subprocess.run(["git", "-C", "/repo", "rev-parse", "--short", "HEAD"], capture_output=True, text=True).stdout.strip(), "origin": "independent sub-agent given only the property text and a scratch worktree",
        "summary": meta.get("summary"), "needs_to_manifest": meta.get("needs_to_manifest"),
        "why_tests_still_pass": meta.get("why_tests_still_pass"),
        "demonstration": [os.path.basename(f) for f in demos],
